@@ -1046,6 +1046,9 @@ def parse_template(text):
             out.append(tuple(stack_impl))
             stack_impl = None
             i += 1
+        elif name == "unitprops":
+            out.append(("unitprops", arg.split()))
+            i += 1
         else:
             raise ExtractError("template line %d: unknown top-level directive //@%s" % (i + 1, name))
     if stack_impl:
@@ -1079,6 +1082,7 @@ class Unit:
     def __init__(self, repo, template_path, canary=False):
         self.canary = canary
         self.canary_loops = 0
+        self.default_props = None
         self.repo = repo
         self.template_path = template_path
         self.sources = {}
@@ -1379,7 +1383,7 @@ class Unit:
             "source_tokens": len(sig_indices(toks, a, b)),
             "edits": log,
             "contract_clauses": n_ann,
-            "props": props,
+            "props": props if props is not None else self.default_props,
             "is_fn": is_fn,
             "has_body": bool(parts and parts["body"]),
             "has_contract": any(n == "spec" for (n, _a, _t) in blk.subs),
@@ -1394,7 +1398,10 @@ class Unit:
             tpl = parse_template(f.read())
         out = LineTrackingList(self.report["items"])
         for node in tpl:
-            if node[0] == "raw":
+            if node[0] == "unitprops":
+                self.default_props = node[1]
+                out.append("// (unit default properties: %s)" % " ".join(node[1]))
+            elif node[0] == "raw":
                 out.append(node[1])
             elif node[0] == "item":
                 blk = node[1]
